@@ -40,13 +40,25 @@ package config
 // C10: a schedule binding gets the documented defaults: name "schedule", queue "main"; the other
 // fields are taken over as declared.
 //@ func (*HookConfigV1).ConvertSchedule
-//@   prop C10
+//@   prop C10, C11
 //@   modifies nothing
 //@   ensures [no-error]  result1 == nil
+//@   ensures [own-id @C11] isUuidText(result0.ScheduleEntry.Id)
 //@   ensures [name]      result0.BindingName == ite(schV1.Name != "", schV1.Name, "schedule")
 //@   ensures [queue]     result0.Queue == ite(schV1.Queue == "", "main", schV1.Queue)
 //@   ensures [copied]    result0.AllowFailure == schV1.AllowFailure && result0.ScheduleEntry.Crontab == schV1.Crontab && result0.IncludeSnapshotsFrom == schV1.IncludeSnapshotsFrom && result0.Group == schV1.Group
 
+// C11: the schedule manager counts the users of a crontab by the ids of the bindings registered for
+// it, across all hooks. That is a reference count only if no two bindings - of any hooks - share an
+// id: the id of a schedule binding is the text of a fresh uuid (uniqueness of uuids: assumed), not
+// something derived from the binding's name or position, which repeat from hook to hook.
+//@ specfn isUuidText(s string) bool
+//@ func ScheduleID
+//@   prop C11
+//@   modifies nothing
+//@   ensures [id-is-a-fresh-uuid] isUuidText(result)
+//@   callsite (github.com/gofrs/uuid/v5.UUID).String
+//@     ensures isUuidText(result)
 // membership in a list of names
 //@ specfn inNames(s []string, x string) bool
 //@   axiom result ==> exists(j, 0, len(s), s[j] == x)
